@@ -81,7 +81,8 @@ def run(tier, seed):
     have = {f["id"] for f in chk.known}
     chk.known = chk.known + [f for f in _own_findings() if f["id"] not in have]
     proof = gv.proof_status(PROP, REQ_PROPS)
-    ncases = gv.scaled(PROP, tier, 110, 400, chk)
+    # quick: 110 traces on the pinned tree, up to 220 when /repo has moved; thorough: 400
+    ncases = gv.scaled(PROP, tier, 110, 220, chk) if tier == "quick" else 400
     ok, out, binp = gv.cargo_build("c14")
     if not ok:
         chk.violation("build", {"what": "the harness no longer builds against /repo's working tree", "log": out[-3000:],
